@@ -39,6 +39,10 @@ func main() {
 		os.Exit(2)
 	}
 	fmt.Printf("loaded in %.1fs\n", time.Since(t0).Seconds())
+	if *fn == "MAPRANGES" {
+		listMapRanges(l)
+		return
+	}
 	f := l.Func(symgo.RepoModule+"/"+*pkg, *fn)
 	if f == nil {
 		fmt.Println("no such function")
